@@ -494,9 +494,9 @@ func TestC09(t *testing.T) {
 		if len(ev.harnessErrors) > 0 {
 			return
 		}
-		kC09.Run(t, ev, perShard(pick(3000, 300000)))
-		kC09Murmur.Run(t, ev, perShard(pick(3000, 300000)))
-		kC09Size.Run(t, ev, perShard(pick(2000, 200000)))
+		kC09.Run(t, ev, perShard(pick(3000, 2000000)))
+		kC09Murmur.Run(t, ev, perShard(pick(3000, 2000000)))
+		kC09Size.Run(t, ev, perShard(pick(2000, 1000000)))
 		ev.requireClasses("C09:k=0", "C09:k=50", "C09:len-class=1", "C09:len-class=36000", "C09:reload", "C09:unload",
 			"C09:add-len%4=0", "C09:add-len%4=1", "C09:add-len%4=2", "C09:add-len%4=3", "C09:sized-nonempty", "C09:add-item>520-bytes")
 	})
